@@ -536,7 +536,11 @@ func GenUciSession(prop string, seed uint64) *Scenario {
 				goLine += fmt.Sprintf(" winc %d binc %d", rng.LogRange(1, 2000), rng.LogRange(1, 2000))
 			}
 			if rng.Chance(0.4) {
-				goLine += fmt.Sprintf(" movestogo %d", rng.Range(1, 40))
+				mtg := rng.Range(1, 40)
+				if prop == "C13" {
+					mtg = widenMovesToGo(mtg)
+				}
+				goLine += fmt.Sprintf(" movestogo %d", mtg)
 			}
 			boundMs = 120_000
 		case 4: // infinite
